@@ -79,7 +79,8 @@ Vocab == <<
   <<35, 40>>,
   <<39>>,
   <<46>> >>
-Seps == << <<>>, <<32>>, <<9>>, <<13, 10>>, <<59, 99, 10>>, <<32, 32, 10, 32>> >>     \* none, blank, tab, CR LF, comment, mixed
+\* none, blank, tab, CR LF, comment to LF, mixed, bare CR, comment ended by a bare CR (reached after white space / directly)
+Seps == << <<>>, <<32>>, <<9>>, <<13, 10>>, <<59, 99, 10>>, <<32, 32, 10, 32>>, <<13>>, <<32, 59, 120, 13, 32>>, <<59, 13>> >>
 
 VARIABLES i, j, s, phase
 Init == i \in DOMAIN Vocab /\ j \in DOMAIN Vocab /\ s \in DOMAIN Seps /\ phase = 0
